@@ -1,10 +1,18 @@
 package harness
 
 import (
+	"context"
 	"fmt"
 	"os"
+	"path/filepath"
 	"strings"
 	"testing"
+	"time"
+
+	"github.com/facebookincubator/tacquito/cmds/server/config"
+	"github.com/facebookincubator/tacquito/cmds/server/loader/fsnotify"
+	jsonl "github.com/facebookincubator/tacquito/cmds/server/loader/json"
+	yamll "github.com/facebookincubator/tacquito/cmds/server/loader/yaml"
 
 	"verif/harness/cfggen"
 	"verif/harness/ev"
@@ -334,4 +342,100 @@ func sentElsewhere(elsewhere map[string]bool, tok string) bool {
 		}
 	}
 	return false
+}
+
+// TestC18EnumWatcherRefusedReload: the file watcher (cmds/server/loader/fsnotify) around the YAML and the
+// JSON document loader, with a recording logger.  A valid document whose shared secrets are searchable
+// tokens is loaded; then the file is rewritten with documents the loader refuses in different ways (a value
+// of the wrong type right behind a key, a cut in the middle, stray punctuation).  The old configuration
+// stays in force, so its secrets are live; nothing the watcher or the loader logs may contain them.
+func TestC18EnumWatcherRefusedReload(t *testing.T) {
+	for _, format := range []string{"json", "yaml"} {
+		ev.Eval()
+		dir, err := os.MkdirTemp("", "verif-c18w-")
+		if err != nil {
+			t.Fatalf("HARNESS-BUG: %v", err)
+		}
+		defer os.RemoveAll(dir)
+		path := filepath.Join(dir, "tacquito."+format)
+		keyA, keyB := "K3yWatcherSecretAlpha01", "K3yWatcherSecretBravo02"
+		cfg := cfggen.Config{
+			Secrets: []cfggen.Secret{cfggen.NewSecret(cfggen.ScopeA, keyA, cfggen.PrefixA), cfggen.NewSecret(cfggen.ScopeB, keyB, cfggen.PrefixB)},
+			Users:   []cfggen.User{{Name: "alice", Scopes: []string{cfggen.ScopeA, cfggen.ScopeB}, Authenticator: cfggen.BcryptAuth("pw-alpha"), Accounter: cfggen.FileAccounter()}},
+		}
+		good := cfg.YAML()
+		var um interface {
+			Unmarshal(b []byte) error
+			Load(path string) error
+			Config() chan config.ServerConfig
+		} = yamll.New()
+		if format == "json" {
+			good = cfg.JSON()
+			um = jsonl.New()
+		}
+		var bad [][]byte
+		text := string(good)
+		for _, r := range [][2]string{{`"type":1`, `"type":"1"`}, {`"type":1`, `"type":{"x":1}`}, {`"prefixes"`, `]"prefixes"`}, {"type: 1", "type: [1"}, {"type: 1", "type: {a: b}"}, {"group: tacquito", "group: [tacquito"}, {"handler:", "handler: 7\n    x:"}} {
+			if strings.Contains(text, r[0]) {
+				// the last occurrence: behind both keys
+				i := strings.LastIndex(text, r[0])
+				bad = append(bad, []byte(text[:i]+r[1]+text[i+len(r[0]):]))
+				j := strings.Index(text, r[0])
+				bad = append(bad, []byte(text[:j]+r[1]+text[j+len(r[0]):]))
+			}
+		}
+		bad = append(bad, good[:len(good)*6/10], good[:len(good)*9/10], append(append([]byte{}, good...), []byte("\n]]}{")...))
+		cse := map[string]interface{}{"watcher_refused_reload": true, "format": format, "documents": len(bad)}
+		journal("C18", cse)
+		if err := os.WriteFile(path, good, 0o600); err != nil {
+			t.Fatalf("HARNESS-BUG: %v", err)
+		}
+		ctx, cancel := context.WithCancel(context.Background())
+		wl := &watchLog{}
+		w := fsnotify.New(ctx, um, wl)
+		if err := w.Load(path); err != nil {
+			cancel()
+			t.Fatalf("HARNESS-BUG: watcher refused the first document: %v", err)
+		}
+		select {
+		case <-w.Config():
+		case <-time.After(watchdog):
+			cancel()
+			t.Fatalf("HARNESS-BUG/INCONCLUSIVE: the first document was not published")
+		}
+		for k, doc := range bad {
+			before := len(wl.snapshot())
+			if err := os.WriteFile(path, doc, 0o600); err != nil {
+				t.Fatalf("HARNESS-BUG: %v", err)
+			}
+			// the watcher acts on its next tick; wait until it has logged something about this rewrite
+			reloaded := func() bool {
+				for _, rec := range wl.snapshot()[before:] {
+					if strings.Contains(rec.text, "reloading config") || rec.level == "error" {
+						return true
+					}
+				}
+				return false
+			}
+			for tries := 0; tries < 300 && !reloaded(); tries++ {
+				time.Sleep(10 * time.Millisecond)
+			}
+			time.Sleep(100 * time.Millisecond)
+			select {
+			case <-w.Config(): // a document the loader accepts after all: nothing to refuse
+			default:
+			}
+			for _, rec := range wl.snapshot() {
+				for _, tok := range []string{keyA, keyB} {
+					if strings.Contains(rec.text, tok) {
+						cancel()
+						violation(t, "C18", "secret", "C18:token-in-message", cse, "refused reload %d of a %s document: the shared secret of a configuration that is still in force appears in a %s message of the watcher: %q", k, format, rec.level, clipStr(rec.text))
+					}
+				}
+			}
+		}
+		cancel()
+		ev.Class("watcher:refused-reloads:" + format)
+		ev.NonTrivial("watcher-refused-reload", cse)
+	}
 }
